@@ -191,15 +191,27 @@ Inductive logw := LNone | LWrap (finder : N) (logok : bool).
 Inductive weff := EOk | EPartial (dropped : N) | EOther.
 Definition eff_of (w : wres) : weff := match w with WOk => EOk | WPartial d => EPartial d | WErr => EOther end.
 
-(** func (w *LoggingPointsWriter) WritePoints:
+(** func (w *LoggingPointsWriter) WritePoints (as of the fix of finding
+    logging-writer-loses-dropped-count):
       if len(p) == 0 { return nil }                          // the engine is NOT called
       err := w.Underlying.WritePoints(...); if err == nil { return nil }
-      bkts, n, e := w.BucketFinder.FindBuckets(...)          // e != nil -> return e;  n == 0 -> a new error
-      pt, e := models.NewPoint("write_errors", ...)
-      if e := w.Underlying.WritePoints(ctx, orgID, bkts[0].ID, pt); e != nil { return e }
-      return err                                             // the ORIGINAL error
+      bkts, n, e := w.BucketFinder.FindBuckets(...)          // e != nil || n == 0 -> return err
+      pt, e := models.NewPoint("write_errors", ...)          // e != nil -> return err
+      if e := w.Underlying.WritePoints(ctx, orgID, bkts[0].ID, pt); e != nil { return err }
+      return err                                             // always the ORIGINAL error
     Result: what the handler sees, and whether the engine was called with the batch. *)
 Definition logging_write (lg : logw) (w : wres) (npoints : nat) : weff * bool :=
+  match lg with
+  | LNone => (eff_of w, true)
+  | LWrap finder logok =>
+    match npoints with
+    | O => (EOk, false)
+    | _ => (eff_of w, true)
+    end
+  end.
+
+(** before that fix a failing logging attempt replaced the original error *)
+Definition logging_write_before_fix (lg : logw) (w : wres) (npoints : nat) : weff * bool :=
   match lg with
   | LNone => (eff_of w, true)
   | LWrap finder logok =>
